@@ -6,6 +6,7 @@ import (
 	"os"
 
 	"verifharness/drv/fwd"
+	"verifharness/drv/hb"
 )
 
 func main() {
@@ -16,6 +17,8 @@ func main() {
 	switch os.Args[1] {
 	case "fwd":
 		os.Exit(fwd.Main(os.Args[2:]))
+	case "hb":
+		os.Exit(hb.Main(os.Args[2:]))
 	default:
 		fmt.Fprintln(os.Stderr, "unknown driver", os.Args[1])
 		os.Exit(2)
